@@ -59,6 +59,42 @@ class Binding(object):
             out.append([int(k[1:]), self.unval(v)])
         return out
 
+    def observations(self, m, rng, nkeys):
+        """what the read-only API answers right after a call (judged by Trace_SDict against the logged state)"""
+        n = len(m)
+        obs = [{'k': 'len', 'n': n}]
+
+        def tok(f, kind):
+            try:
+                x = f()
+            except (KeyError, IndexError, ValueError) as e:
+                return [type(e).__name__]
+            except Exception as e:
+                return ['Unexpected' + type(e).__name__]
+            if kind == 'key':
+                return ['key', int(x[1:])] if isinstance(x, str) and x[:1] == 'k' and x[1:].isdigit() else ['key', -1]
+            if kind == 'pos':
+                return ['pos', x]
+            return ['val', self.unval(x)]
+        for i in sorted(set([0, -1, n - 1, n, rng.randint(-n - 1, n + 1)])):
+            obs.append({'k': 'at', 'i': i, 'r': tok(lambda: m.at(i), 'key')})
+            obs.append({'k': 'value_at', 'i': i, 'r': tok(lambda: m.value_at(i), 'val')})
+        for k in sorted(set([rng.randint(1, nkeys), rng.randint(1, nkeys), nkeys + 7])):
+            key = key_of(k)
+            obs.append({'k': 'index', 'key': k, 'r': tok(lambda: m.index(key), 'pos')})
+            obs.append({'k': 'getitem', 'key': k, 'r': tok(lambda: m[key], 'val')})
+            obs.append({'k': 'get', 'key': k, 'd': 4, 'r': tok(lambda: m.get(key, 4), 'val')})
+            obs.append({'k': 'contains', 'key': k, 'v': key in m})
+        try:
+            obs.append({'k': 'keys', 'ks': [int(x[1:]) for x in m.keys()]})
+            obs.append({'k': 'values', 'vs': [self.unval(x) for x in m.values()]})
+            same = dict(m.items())
+            obs.append({'k': 'eq_copy', 'v': bool(m == same) and bool(same == m) and not (m != same) and
+                        len(list(iter(m))) == n and list(reversed(list(m))) == list(m)[::-1]})
+        except Exception as e:
+            obs.append({'k': 'eq_copy', 'v': False, 'exc': type(e).__name__})
+        return obs
+
     def apply(self, m, o):
         n = o['name']
         try:
@@ -234,6 +270,7 @@ def random_history(rng, b, cls, nkeys, length):
         res = b.apply(m, o)
         o['r'] = res
         o['st'] = b.observe(m)
+        o['obs'] = b.observations(m, rng, nkeys)
         evs.append(o)
     return evs
 
@@ -278,10 +315,18 @@ def selftest_binding(rep, work, traces, verdict):
     bad = json.loads(json.dumps(good))
     idx = next(i for i, e in enumerate(bad) if len(e['st']) >= 2)
     bad[idx]['st'][0], bad[idx]['st'][1] = bad[idx]['st'][1], bad[idx]['st'][0]
-    v = judge_traces(rep, work, [good, bad], 'selftest')
+    # ... and one logged observation (the key reported by at(0)) of another copy
+    bad2 = json.loads(json.dumps(good))
+    idx2 = next(i for i, e in enumerate(bad2) if len(e['st']) >= 2 and any(o['k'] == 'at' and o['i'] == 0 for o in e.get('obs', [])))
+    for o in bad2[idx2]['obs']:
+        if o['k'] == 'at' and o['i'] == 0:
+            o['r'] = ['key', bad2[idx2]['st'][1][0]]
+    v = judge_traces(rep, work, [good, bad, bad2], 'selftest')
     new_rej = [x for x in v[2] if x not in v[1]]
-    ok = v[1] == verdict[1] and any(x[0] == idx + 1 for x in new_rej)
-    rep.extra['binding_selftest'] = {'corrupted_event': idx + 1, 'new_rejections': new_rej[:3], 'ok': ok}
+    new_rej2 = [x for x in v[3] if x not in v[1]]
+    ok = v[1] == verdict[1] and any(x[0] == idx + 1 for x in new_rej) and new_rej2 == [(idx2 + 1, 'obs_at')]
+    rep.extra['binding_selftest'] = {'corrupted_event': idx + 1, 'new_rejections': new_rej[:3],
+                                     'corrupted_observation': idx2 + 1, 'observation_rejections': new_rej2[:3], 'ok': ok}
     if not ok:
         raise MachineryError('binding self-test failed: %r' % (v,))
 
